@@ -491,11 +491,9 @@ func decEqStr(d decstr, other value) *Term {
 // decEqCells: the byte cells spell the canonical decimal text of x.
 func decEqCells(x *Term, cells []value) *Term {
 	n := len(cells)
-	if n == 0 || n > 18 {
-		if n == 0 {
-			return tFalse
-		}
-		theEx.unsupported("comparison of decimal text with symbolic text longer than 18 bytes")
+	if n == 0 || n > 20 {
+		// no int64 has an empty decimal text or one longer than 20 characters
+		return tFalse
 	}
 	isDigit := func(b *Term) *Term {
 		return mkAnd(mkCmp(OpUle, mkConst(8, '0'), b), mkCmp(OpUle, b, mkConst(8, '9')))
@@ -512,18 +510,24 @@ func decEqCells(x *Term, cells []value) *Term {
 		if len(cs) > 1 {
 			valid = mkAnd(valid, mkNot(mkEq(byteTerm(cs[0]), mkConst(8, '0'))))
 		}
+		if len(cs) > 19 {
+			// 20 digits never spell an int64 (and the unsigned sum would wrap)
+			valid = tFalse
+		}
 		return valid, val
 	}
 	// non-negative form
+	// (up to 19 digits the unsigned 64-bit Horner sum cannot wrap: 10^19 < 2^64;
+	// 19-digit texts are additionally limited to the int64 range)
 	vPos, valPos := digitsVal(cells)
-	pos := mkAnd(vPos, mkEq(x, valPos))
+	pos := mkAnd(vPos, mkEq(x, valPos), mkCmp(OpUle, valPos, mkConst(64, 1<<63-1)))
 	if n == 1 {
 		return pos
 	}
 	// negative form: '-' followed by digits, not "-0"
 	vNeg, valNeg := digitsVal(cells[1:])
 	neg := mkAnd(mkEq(byteTerm(cells[0]), mkConst(8, '-')), vNeg,
-		mkNot(mkEq(valNeg, mkConst(64, 0))), mkEq(x, mkUn(OpNeg, valNeg)))
+		mkNot(mkEq(valNeg, mkConst(64, 0))), mkEq(x, mkUn(OpNeg, valNeg)), mkCmp(OpUle, valNeg, mkConst(64, 1<<63)))
 	return mkOr(pos, neg)
 }
 
